@@ -710,3 +710,24 @@ def end_uses_one_queue(ctx, rule, which):
     ok = len(eof) == 1 and len(run) >= 1 and eof[0] is not None and all(r == eof[0] for r in run)
     ctx.ob(rule, "end-unconsumes-into-the-queue-it-runs/%s" % which, ok, "end_of_file and run share the local queue `%s`" % eof[0] if ok else
            "end() hands end_of_file the queue %s and run() the queue %s: text the character-reference tokenizer un-consumes at end of input (e.g. `&am`) is lost" % (eof, run), "%s tokenizer end" % which)
+
+
+def attr_values_kept_verbatim(ctx, rule, which):
+    """in the attribute value states of the tokenizer every character that is taken into the value is taken as it is (the input
+    character, or the run that was scanned): nothing is folded or replaced there, except U+0000 -> U+FFFD in HTML, which the
+    standard prescribes.  (Whitespace normalisation of attribute values is not part of either tokenizer; the serializers write
+    line breaks in attribute values raw and rely on that.)"""
+    T = ctx.tables(which)
+    states = [st for st in T["step"] if re.match(r"(TagAttrValue\(|AttributeValue\()", st)]
+    bad = None
+    n = 0
+    for st in states:
+        for pc in T["step"][st] or []:
+            for a, args in pc["actions"]:
+                if a in ("self.current_attr_value.push_char", "self.current_attr_value.push_tendril", "self.current_attr_value.push_slice"):
+                    n += 1
+                    x = str(args[0]) if args else ""
+                    ok = x in ("c", "run") or (which == "html" and x == "lit:'\ufffd'")
+                    if not ok:
+                        bad = "state %s appends %s to the attribute value instead of the character read" % (st, x)
+    ctx.ob(rule, "attribute-value-characters-kept-verbatim/%s" % which, bad is None and n >= 6, bad or "%d appends, all of the character / run that was read" % n, "%s tokenizer attribute value states" % which)
